@@ -50,6 +50,8 @@ type Options struct {
 	Workers int // 0 = NumCPU
 	// MaxExecs caps executions per scenario (0 = none); hitting it marks the run incomplete.
 	MaxExecs int
+	// NoUnlockPoints keeps the thorough tier from turning lock releases into scheduling points everywhere.
+	NoUnlockPoints bool
 	// NoDeepen switches off the thorough tier's use of left-over budget for deeper bounds.
 	NoDeepen bool
 }
@@ -57,6 +59,8 @@ type Options struct {
 type replayRec struct {
 	Scenario string `json:"scenario"`
 	Choices  []int  `json:"choices"`
+	// UnlockPoints: the schedule was recorded with lock releases as scheduling points (thorough tier)
+	UnlockPoints bool `json:"unlock_points,omitempty"`
 }
 
 type item struct {
@@ -150,7 +154,7 @@ func runOne(sc *Scenario, prefix []int, trace bool) (*vsched.Result, Exec, *eng.
 			c.Classify(res, v)
 		}
 		v.Features["scenario"] = sc.Name
-		v.Replay = replayRec{sc.Name, append([]int{}, res.Choices...)}
+		v.Replay = replayRec{sc.Name, append([]int{}, res.Choices...), vsched.UnlockPointsForced()}
 	}
 	return res, x, v
 }
@@ -303,6 +307,11 @@ func Explore(r *eng.Run, scs []*Scenario, opt Options) {
 	if nw == 0 {
 		nw = runtime.NumCPU()
 	}
+	if r.Thorough() && !opt.NoUnlockPoints {
+		// thorough: lock releases are scheduling points in every scenario
+		vsched.ForceUnlockPoints(true)
+	}
+	r.Set("unlock_points_everywhere", vsched.UnlockPointsForced())
 	total := newStats()
 	perSc := map[string]map[string]any{}
 	for _, sc := range scs {
@@ -422,6 +431,9 @@ func startPool(nw int) {
 		cmd := exec.Command(os.Getenv("VERIF_BIN"), "-worker")
 		cmd.Stderr = os.Stderr
 		cmd.Env = append(os.Environ(), "GOMAXPROCS=1")
+		if vsched.UnlockPointsForced() {
+			cmd.Env = append(cmd.Env, "VERIF_UNLOCK_POINTS=1")
+		}
 		stdin, _ := cmd.StdinPipe()
 		stdout, _ := cmd.StdoutPipe()
 		if err := cmd.Start(); err != nil {
@@ -491,6 +503,9 @@ func Replay(r *eng.Run, scs []*Scenario, raw json.RawMessage) {
 	for _, sc := range scs {
 		if sc.Name != rp.Scenario {
 			continue
+		}
+		if rp.UnlockPoints {
+			vsched.ForceUnlockPoints(true)
 		}
 		res, x, v := runOne(sc, rp.Choices, true)
 		for _, l := range res.Trace {
